@@ -4,7 +4,7 @@
    regex.py by the value correspondence of harness/props/c19.py.
    Strings are lists of code points; all theorems hold for ALL strings and integers. *)
 From Coq Require Import List ZArith Bool Sorted.
-From YV Require Import Common.Corr Model.Strings Model.Regex Model.RegexEngine Gen.CaseMap Model.CaseMap.
+From YV Require Import Common.Corr Model.Strings Model.Regex Model.RegexEngine Gen.CaseMap Model.CaseMap Model.StringKinds.
 From YV Require Import Lemmas.StringsSlice Lemmas.StringsFind Lemmas.StringsSplit Lemmas.StringsTrim Lemmas.StringsOrder Lemmas.RegexPublish Lemmas.RegexEngineFacts Lemmas.CaseMapFacts Lemmas.StringsMisc.
 Import ListNotations.
 Open Scope Z_scope.
@@ -218,6 +218,18 @@ Proof. vm_compute. repeat split. Qed.
 Theorem C19_is_string_regex : forall v,
   (is_string v = true <-> exists s, v = SStr s) /\ is_regex (Some v) = false /\ is_regex None = true.
 Proof. exact is_string_regex_spec. Qed.
+
+(* ---- the KIND of the collection results ---------------------------------------------------------------------
+   toCharArray, split, rightSplit, characters, regex split return a yaql list (never a mutable Python list,
+   which is not a yaql value), searchAll a lazy sequence; finalised: a list by default, a tuple for a list
+   when yaql.convertTuplesToLists is off (legacy engine).  On the current tree split / rightSplit / regex
+   split return a Python list: known finding F23 (harness classifies exactly that class). *)
+Theorem C19_collection_kinds : forall f,
+  result_kind f <> RKList /\ result_kind f <> RKOther /\
+  finalised true (result_kind f) = FKList /\
+  (finalised false (result_kind f) = FKTuple <-> result_kind f = RKTuple) /\
+  (result_kind f = RKIter <-> f = FSearchAll \/ f = FSearchAllSel).
+Proof. exact collection_kinds_spec. Qed.
 
 (* ---- _publish_match ------------------------------------------------------------------------------------ *)
 (* after _publish_match m: $1 is the whole match, $(i+2) is group i+1, $name is the record of the
